@@ -332,6 +332,34 @@ func ruleTransientGaps(c *Ctx, fn *ssa.Function, nVal, errVal ssa.Value, rule1, 
 	// zero-tolerance and elapsed exits are only for EOF/timeout errors: they are not reachable when the
 	// error is neither (the other-error return dominates that case) — i.e. the other-error test comes first
 	// (structure: the classification block dominates both)
+	// and conversely: retrying (a pause before the next read) happens only for an end-of-file or time-out
+	// result — every way into a Sleep on the error branch carries `err == io.EOF` or the time-out text test;
+	// any other error reaches the other-error return whatever the state of the EOF clock
+	eachInstr(fn, func(ins ssa.Instruction) {
+		call, ok := ins.(*ssa.Call)
+		if !ok || !calleeIs(call.Call.StaticCallee(), "time", "Sleep") {
+			return
+		}
+		onErr := false
+		for _, f := range dominatingFacts(call.Block()) {
+			if bo, ok := f.Cond.(*ssa.BinOp); ok && (bo.X == errVal || bo.Y == errVal) && (isNilConst(bo.X) || isNilConst(bo.Y)) {
+				if (bo.Op == token.NEQ && f.Val) || (bo.Op == token.EQL && !f.Val) {
+					onErr = true
+				}
+			}
+		}
+		if !onErr {
+			return
+		}
+		retryable := onEveryPath(call.Block(), func(f EdgeFact) bool {
+			if is, op := isEOFNeq(f.Cond); is && ((op == token.EQL && f.Val) || (op == token.NEQ && !f.Val)) {
+				return true
+			}
+			return isTimeoutText(f.Cond) && f.Val
+		})
+		c.Check(retryable, rule1, "Handle:retry-only-eof-or-timeout", call.Pos(), "the pause before a retry is reached only with an end-of-file or time-out result",
+			"the handler can pause and retry after a read error that is neither end of file nor a time-out: such an error must stop it")
+	})
 	// ---- R3 EOF clock
 	var clock *ssa.Phi
 	eachInstr(fn, func(ins ssa.Instruction) {
